@@ -46,26 +46,22 @@ Section ABA.
     let a := axis_comp ax ia in
     let b := axis_comp ax ib in
     let c := axis_comp ax (unused_axis ia ib) in
-    if negb (((- pi N) + atol N <? alpha) && (alpha <=? pi N + atol N)) then Err EValue else
+    if negb (((- pi N) + atol N <=? alpha) && (alpha <=? pi N + atol N)) then Err EValue else
     let '(p, theta2, m) :=
       if nabs N (alpha - pi N) <? atol N then
         if nabs N a <? atol N then
-          (nofZ N 0, pi N, ncopysign N (two * nacos N b) c)
+          (nofZ N 0, pi N, two * natan2 N c b)
         else
           let theta2 := two * nacos N a in
-          if (nabs N (a - one) <? atol N) || (nabs N (a + one) <? atol N) then (pi N, theta2, pi N)
-          else
-            let arg := clamp1 (b / nsqrt N (one - a * a)) in
-            (pi N, theta2, ncopysign N (two * nacos N arg) c)
+          if (nabs N b <? atol N) && (nabs N c <? atol N) then (pi N, theta2, pi N)
+          else (pi N, theta2, two * natan2 N c b)
       else
         let p := two * natan2 N (a * nsin N (alpha / two)) (ncos N (alpha / two)) in
         let t := a * ntan N (alpha / two) in
         let arg := clamp1 (ncos N (alpha / two) * nsqrt N (one + t * t)) in
         let theta2 := ncopysign N (two * nacos N arg) alpha in
         if nabs N (nsin N (theta2 / two)) <? atol N then (p, theta2, p)
-        else
-          let arg2 := clamp1 (b * nsin N (alpha / two) / nsin N (theta2 / two)) in
-          (p, theta2, ncopysign N (two * nacos N arg2) c) in
+        else (p, theta2, two * natan2 N c b) in
     let m := if is_sin_m_negative ia ib then m * (- one) else m in
     let theta1 := (p + m) / two in
     let theta3 := p - theta1 in
